@@ -811,17 +811,47 @@ func eqMap(a, b map[string]string) bool {
 	return true
 }
 
+// contendKey names the spec-level class of the contention.  For single-command pushes it is the pair of
+// command kinds.  With several commands per push the commands that actually race cannot be told from the
+// outcome, so the key names the kinds that take part on the contended names: a push set that contains a
+// delete (check-then-remove), else one that contains a create (check-then-set), else updates only.
 func contendKey(sc *rpConc) string {
-	for i, a := range sc.C1 {
-		for j, b := range sc.C2 {
+	if len(sc.C1) == 1 && len(sc.C2) == 1 {
+		k := []string{sc.Kinds[0][0], sc.Kinds[1][0]}
+		sort.Strings(k)
+		if sc.C1[0].Name != sc.C2[0].Name {
+			return "disjoint"
+		}
+		return k[0] + "||" + k[1]
+	}
+	contended := map[string]bool{}
+	for _, a := range sc.C1 {
+		for _, b := range sc.C2 {
 			if a.Name == b.Name {
-				k := []string{sc.Kinds[0][i], sc.Kinds[1][j]}
-				sort.Strings(k)
-				return k[0] + "||" + k[1]
+				contended[a.Name] = true
 			}
 		}
 	}
-	return "disjoint"
+	has := map[string]bool{}
+	for i, a := range sc.C1 {
+		if contended[a.Name] {
+			has[sc.Kinds[0][i]] = true
+		}
+	}
+	for j, b := range sc.C2 {
+		if contended[b.Name] {
+			has[sc.Kinds[1][j]] = true
+		}
+	}
+	switch {
+	case len(contended) == 0:
+		return "disjoint"
+	case has["delete"]:
+		return "multi:with-delete"
+	case has["create"]:
+		return "multi:with-create"
+	}
+	return "multi:updates-only"
 }
 
 func c39conc(r *rep.Report, w *rpWorld, path string, rnd *rand.Rand) error {
@@ -926,7 +956,7 @@ func interleavings(a, b int, rnd *rand.Rand) [][]int {
 	}
 	limit := 80
 	if rep.Thorough() {
-		limit = 300
+		limit = 120
 	}
 	if total > limit {
 		var out [][]int
